@@ -107,6 +107,10 @@ Definition tight_tail (s0 : cst) (nozlib : bool) (cc rx ry rw rh : Z) (flt : tfi
   let prev0 := repeat (0, 0, 0) (Z.to_nat rw) in
   if rh * rowsize <? cTIGHT_MIN_TO_COMPRESS then
     b <- rd_buf 71 cRFB_BUFFER_SIZE (rh * rowsize) ;;
+    (match flt with
+     | TFGradient => if (rw =? 0) && negb (fixed s0 10) then grad_zero_width 79 rx ry rh else ret tt
+     | _ => ret tt
+     end) ;;;
     tight_rows 72 f flt cut bypp rx ry rw rowsize (firstn (Z.to_nat rh) (chunks rowsize b)) prev0 ;;; ret tt
   else if nozlib then
     len <- rd_compact ;;
@@ -154,6 +158,9 @@ Proof.
   - unfold rd_buf. destruct (Z.ltb_spec cRFB_BUFFER_SIZE (zlen data)); [unfold cTIGHT_MIN_TO_COMPRESS, cRFB_BUFFER_SIZE in *; lia|].
     erewrite bind_ok; [|apply rd_app; [exact Hdok|reflexivity]].
     rewrite Hch, Hfirst.
+    assert (Ew : (w =? 0) = false).
+    { destruct (Z.eqb_spec w 0) as [E0|]; [|reflexivity]. exfalso. unfold rowsize in Hrs. rewrite E0 in Hrs. cbn in Hrs. lia. }
+    erewrite bind_ok; [|destruct flt; [reflexivity|reflexivity|rewrite Ew; reflexivity]].
     destruct (Hrows 72 s1 Hsame) as [last E]. erewrite bind_ok; [|exact E]. reflexivity.
   - cbn [app]. rewrite Hcc.
     erewrite bind_ok.
